@@ -1,4 +1,6 @@
 pub mod common;
+pub mod group;
+pub mod pairs;
 pub mod state;
 
 use crate::runner::Monitor;
@@ -9,6 +11,9 @@ pub fn get(id: &str) -> Option<Box<dyn Monitor>> {
         "C02" => Some(Box::new(state::StateMonitor { prop: "C02" })),
         "C03" => Some(Box::new(state::StateMonitor { prop: "C03" })),
         "C19" => Some(Box::new(state::StateMonitor { prop: "C19" })),
+        "C04" => Some(Box::new(pairs::PairMonitor { prop: "C04" })),
+        "C11" => Some(Box::new(pairs::PairMonitor { prop: "C11" })),
+        "C12" => Some(Box::new(pairs::PairMonitor { prop: "C12" })),
         _ => None,
     }
 }
